@@ -63,20 +63,26 @@ type c11Filt struct {
 }
 
 type c11State struct {
-	env  *core.Env
-	r    *rand.Rand
-	res  *core.CaseResult
-	db   *sqlx.DB
-	tabs []*rm.Table
-	via  []string
-	idx  [][]string
-	n    int
-	dead bool
+	env   *core.Env
+	r     *rand.Rand
+	res   *core.CaseResult
+	db    *sqlx.DB
+	tabs  []*rm.Table
+	via   []string
+	idx   [][]string
+	n     int
+	dead  bool
+	memKB int
+	big   bool // tables larger than the pool: joins on the first (mostly unique) column only, fewer queries
 }
 
 func (s *c11State) open() {
 	s.n++
-	s.db = sqlx.Open(fmt.Sprintf("%s/c11_%d", s.env.TmpDir, s.n), 2048, sqlx.Options{})
+	memKB := 2048
+	if s.memKB > 0 {
+		memKB = s.memKB
+	}
+	s.db = sqlx.Open(fmt.Sprintf("%s/c11_%d", s.env.TmpDir, s.n), memKB, sqlx.Options{})
 	for i, t := range s.tabs {
 		if s.via[i] == "sql" {
 			if err := s.db.CreateTableSQL(t.Name, t.Cols); err != nil {
@@ -151,7 +157,7 @@ func (s *c11State) genQuery() *c11Query {
 	tags := map[string]bool{}
 	name := func(k, c int) string { return s.tabs[q.tables[k]].Name + "." + s.tabs[q.tables[k]].Cols[c].Name }
 	// join conditions: chain k-1 -> k on columns of equal kind
-	cross := r.Intn(8) == 0
+	cross := r.Intn(8) == 0 && !s.big
 	if !cross {
 		for k := 1; k < nt; k++ {
 			found := false
@@ -159,6 +165,9 @@ func (s *c11State) genQuery() *c11Query {
 				a := r.Intn(k)
 				ca := r.Intn(len(s.tabs[q.tables[a]].Cols))
 				cb := r.Intn(len(s.tabs[q.tables[k]].Cols))
+				if s.big {
+					ca, cb = 0, 0
+				}
 				if s.tabs[q.tables[a]].Cols[ca].K == s.tabs[q.tables[k]].Cols[cb].K {
 					q.joins = append(q.joins, [4]int{a, ca, k, cb})
 					found = true
@@ -362,9 +371,18 @@ func c11Run(env *core.Env, idx int) *core.CaseResult {
 	res := core.NewResult()
 	s := &c11State{env: env, r: r, res: res}
 	nt := 2 + r.Intn(2)
+	// every twelfth case: two tables of 400-1200 rows in a pool of 32-64 frames, so that the build side of a hash join
+	// needs several temp pages and those pages (like the heap pages) are evicted and read back while the join runs
+	big := idx%12 == 7
+	if big {
+		nt = 2
+		s.memKB = []int{128, 192, 256}[r.Intn(3)]
+		s.big = true
+		res.Add("cases_with_tables_larger_than_the_pool", 1)
+	}
 	shared := r.Intn(3) == 0 // tables share column names (id, a, ...)
 	apiVals := r.Intn(4) == 0
-	apiNoNull := apiVals && r.Intn(2) == 0 // API-only values without NULLs (NULL join keys / NULLs in indexed columns are listed findings)
+	apiNoNull := apiVals && r.Intn(2) == 0    // API-only values without NULLs (NULL join keys / NULLs in indexed columns are listed findings)
 	signedZeros := !apiVals && r.Intn(4) == 0 // float columns hold +0.0 and -0.0 (no NULLs, nothing else beyond the literal forms)
 	for i := 0; i < nt; i++ {
 		nc := 1 + r.Intn(4)
@@ -390,10 +408,33 @@ func c11Run(env *core.Env, idx int) *core.CaseResult {
 			}
 		}
 		n := []int{0, 1, 3, 8, 20, 60}[r.Intn(6)]
+		keySpace := 0
+		if big {
+			// table p: 2000-4000 rows of ~100-170 bytes (50-150 heap pages); table q: 400-1000 narrow rows (several temp pages as a
+			// hash-join build side); join keys mostly unique in q, so the answer has about as many rows as p
+			via = "api"
+			if i == 0 {
+				n = 2000 + r.Intn(2001)
+				t.Cols = []rm.Col{{Name: t.Cols[0].Name, K: rm.KInt}, {Name: "ppad", K: rm.KStr}, {Name: "pk", K: rm.KInt}}
+			} else {
+				n = 400 + r.Intn(601)
+				t.Cols = []rm.Col{{Name: t.Cols[0].Name, K: rm.KInt}, {Name: "qf", K: rm.Kind(r.Intn(2))}, {Name: "qs", K: rm.KStr}}
+			}
+			nc = 3
+			ix = []string{"", "", ""}
+			if r.Intn(2) == 0 {
+				ix[0] = "skiplist"
+			}
+			keySpace = 500 + r.Intn(700)
+		}
 		for k := 0; k < n; k++ {
 			row := make(rm.Row, nc)
 			for c := range row {
-				if t.Cols[c].K == rm.KInt && r.Intn(2) == 0 {
+				if big && c == 0 {
+					row[c] = rm.Int(int32(r.Intn(keySpace))) // q: mostly unique join keys with duplicates and misses; p: every key several times
+				} else if big && t.Cols[c].Name == "ppad" {
+					row[c] = rm.Str(fmt.Sprintf("r%d.", k) + strings.Repeat(string(rune('a'+r.Intn(26))), 80+r.Intn(70)))
+				} else if t.Cols[c].K == rm.KInt && r.Intn(2) == 0 {
 					row[c] = rm.Int(int32(r.Intn(8))) // dense join keys: duplicates and misses
 				} else if t.Cols[c].K == rm.KFloat && signedZeros && r.Intn(4) == 0 {
 					// zeros of both signs compare equal: they have to meet in every join algorithm
@@ -415,6 +456,9 @@ func c11Run(env *core.Env, idx int) *core.CaseResult {
 	nq := 8
 	if env.Thorough() {
 		nq = 16
+	}
+	if s.big {
+		nq = 3
 	}
 	var qs []*c11Query
 	for i := 0; i < nq; i++ {
